@@ -550,11 +550,14 @@ func (e *Env) typeArg(x *Expr) types.Type {
 			return T
 		}
 	}
-	if x.Op == "idx" && len(x.Args) == 2 && (x.Args[0].Op == "id" || x.Args[0].Op == "sel") {
-		// Generic[T]: a generic named type instantiated at one type argument
-		if named, ok := e.typeArg(x.Args[0]).(*types.Named); ok && named.TypeParams().Len() == 1 {
-			A := e.t.resolve(e.typeArg(x.Args[1]))
-			if I, err := types.Instantiate(nil, named, []types.Type{A}, true); err == nil {
+	if x.Op == "idx" && len(x.Args) >= 2 && (x.Args[0].Op == "id" || x.Args[0].Op == "sel") {
+		// Generic[A, B]: a generic named type instantiated at type arguments
+		if named, ok := e.typeArg(x.Args[0]).(*types.Named); ok && named.TypeParams().Len() == len(x.Args)-1 {
+			var targs []types.Type
+			for _, a := range x.Args[1:] {
+				targs = append(targs, e.t.resolve(e.typeArg(a)))
+			}
+			if I, err := types.Instantiate(nil, named, targs, true); err == nil {
 				return I
 			}
 		}
